@@ -51,6 +51,10 @@ type hprog struct {
 	Name  string  `json:"name"`
 	Tasks []htask `json:"tasks"`
 	Files []hfile `json:"files"`
+	// Reps > 1: every run op is executed that many times and the distinct outcomes are united.
+	// Go randomises the iteration order of spok's own maps (e.g. SpokFile.Tasks); it cannot be
+	// controlled from outside, so for programs where it could matter it is at least varied.
+	Reps int `json:"reps,omitempty"`
 }
 
 const absent = "-"
@@ -113,6 +117,9 @@ func histCatalogue() []hprog {
 		// ... and a later task that bumps a file an earlier task of the same run depends on
 		{Name: "P12-later-task-bumps-input", Tasks: []htask{{Name: "ta", Lits: []string{"g.txt"}}, {Name: "tb", Deps: []string{"ta"}, EffFile: 1, EffVal: "gen"}},
 			Files: []hfile{globf("g.txt", "v0", "gen")}},
+		// two tasks sharing their first glob, each with its own literal file, and up to three matches
+		{Name: "P13-shared-glob-own-files", Reps: 4, Tasks: []htask{{Name: "ta", Globs: []string{"*.src"}, Lits: []string{"a.txt"}}, {Name: "tb", Globs: []string{"*.src"}, Lits: []string{"b.txt"}}},
+			Files: []hfile{lit("a.txt"), lit("b.txt"), globf("x.src", "v0", "v1"), globf("y.src", "v0"), globf("z.src", "v0")}},
 		{Name: "P8-three-tasks", Tasks: []htask{{Name: "ta", Lits: []string{"a.txt"}}, {Name: "tb", Lits: []string{"b.txt"}}, {Name: "tc", Deps: []string{"ta", "tb"}}}, Files: []hfile{lit("a.txt"), lit("b.txt")}},
 	}
 }
@@ -203,10 +210,13 @@ type hdisk struct {
 	SpokDir  bool     `json:"spokdir"`
 	HasCache bool     `json:"hascache"`
 	Cache    string   `json:"cache"`
+	// Extra: any other file inside .spok (besides cache.json, .gitignore, CACHEDIR.TAG), e.g. a
+	// temporary or backup file an implementation may keep there; "name=content" sorted
+	Extra []string `json:"extra,omitempty"`
 }
 
 func (d hdisk) key() string {
-	return strings.Join(d.Files, "|") + fmt.Sprintf("#%v#%v#", d.SpokDir, d.HasCache) + d.Cache
+	return strings.Join(d.Files, "|") + fmt.Sprintf("#%v#%v#", d.SpokDir, d.HasCache) + d.Cache + "#" + strings.Join(d.Extra, "\x00")
 }
 
 type hmodel struct {
@@ -228,11 +238,14 @@ type hop struct {
 	Req   []string `json:"req,omitempty"`
 	Force bool     `json:"force,omitempty"`
 	Fail  []string `json:"fail,omitempty"`
-	Rm    string   `json:"rm,omitempty"` // dir | file
+	Rm    string   `json:"rm,omitempty"`    // dir | file
+	Fault string   `json:"fault,omitempty"` // ro-cache: .spok/cache.json cannot be written during this run
 }
 
 func (o hop) String() string {
 	switch o.Kind {
+	case "none":
+		return "(no edit)"
 	case "edit":
 		return fmt.Sprintf("set[%d]=%s", o.File, o.Val)
 	case "rmcache":
@@ -244,6 +257,9 @@ func (o hop) String() string {
 	}
 	if len(o.Fail) > 0 {
 		s += " failing=" + strings.Join(o.Fail, ",")
+	}
+	if o.Fault != "" {
+		s += " fault=" + o.Fault
 	}
 	return s
 }
@@ -285,6 +301,10 @@ func histOps(p hprog, d hdisk, withForce bool) []hop {
 		fails = append(fails, names)
 	}
 	for _, r := range reqs {
+		if d.HasCache && len(r) == 1 {
+			// environment fault: the cache file cannot be written while this run is going on
+			ops = append(ops, hop{Kind: "run", Req: r, Fault: "ro-cache"})
+		}
 		for _, f := range fails {
 			ops = append(ops, hop{Kind: "run", Req: r, Fail: f})
 			if withForce {
@@ -362,6 +382,11 @@ func materialise(sb *proj.Sandbox, p hprog, d hdisk) {
 		if d.HasCache {
 			os.WriteFile(filepath.Join(sp, "cache.json"), []byte(d.Cache), 0o644)
 		}
+		for _, e := range d.Extra {
+			if i := strings.IndexByte(e, '='); i > 0 {
+				os.WriteFile(filepath.Join(sp, e[:i]), []byte(e[i+1:]), 0o644)
+			}
+		}
 	}
 }
 
@@ -381,6 +406,17 @@ func readDisk(sb *proj.Sandbox, p hprog, before hdisk) hdisk {
 			d.HasCache = true
 			d.Cache = string(b)
 		}
+		if ents, err := os.ReadDir(filepath.Join(sb.Dir, ".spok")); err == nil {
+			for _, e := range ents {
+				n := e.Name()
+				if n == "cache.json" || n == ".gitignore" || n == "CACHEDIR.TAG" || e.IsDir() {
+					continue
+				}
+				b, _ := os.ReadFile(filepath.Join(sb.Dir, ".spok", n))
+				d.Extra = append(d.Extra, n+"="+string(b))
+			}
+			sort.Strings(d.Extra)
+		}
 	}
 	return d
 }
@@ -389,19 +425,33 @@ func readDisk(sb *proj.Sandbox, p hprog, before hdisk) hdisk {
 func execRun(sb *proj.Sandbox, p hprog, text string, d hdisk, op hop) []hexec {
 	var outs []hexec
 	seen := map[string]bool{}
+	reps := 1
+	if p.Reps > 1 {
+		reps = p.Reps
+	}
+	cachePath := filepath.Join(sb.Dir, ".spok", "cache.json")
 	var rec func(prefix []int)
 	rec = func(prefix []int) {
-		c := choose.NewReplay(prefix)
-		setDagOrder(func(n int) []int { return c.Perm(n) })
-		materialise(sb, p, d)
-		sb.SetFailing(op.Fail, p.taskNames())
-		out := sb.Run(text, op.Force, op.Req...)
-		setDagOrder(nil)
-		nd := readDisk(sb, p, d)
-		k := nd.key() + string(pool.MustJSON(out))
-		if !seen[k] {
-			seen[k] = true
-			outs = append(outs, hexec{Disk: nd, Out: out, Choice: append([]int{}, c.Taken...)})
+		var c *choose.Chooser
+		for rep := 0; rep < reps; rep++ {
+			c = choose.NewReplay(prefix)
+			setDagOrder(func(n int) []int { return c.Perm(n) })
+			materialise(sb, p, d)
+			sb.SetFailing(op.Fail, p.taskNames())
+			if op.Fault == "ro-cache" {
+				os.Chmod(cachePath, 0o444)
+			}
+			out := sb.Run(text, op.Force, op.Req...)
+			setDagOrder(nil)
+			if op.Fault == "ro-cache" {
+				os.Chmod(cachePath, 0o644)
+			}
+			nd := readDisk(sb, p, d)
+			k := nd.key() + string(pool.MustJSON(out))
+			if !seen[k] {
+				seen[k] = true
+				outs = append(outs, hexec{Disk: nd, Out: out, Choice: append([]int{}, c.Taken...)})
+			}
 		}
 		for i := len(prefix); i < len(c.Taken); i++ {
 			for alt := 1; alt < c.Width[i]; alt++ {
@@ -421,7 +471,7 @@ func applyEdit(d hdisk, op hop) hdisk {
 		nd.Files[op.File] = op.Val
 	case "rmcache":
 		if op.Rm == "dir" {
-			nd.SpokDir, nd.HasCache, nd.Cache = false, false, ""
+			nd.SpokDir, nd.HasCache, nd.Cache, nd.Extra = false, false, "", nil
 		} else {
 			nd.HasCache, nd.Cache = false, ""
 		}
@@ -610,7 +660,7 @@ func traceString(states []hstate, i int) string {
 // histSearch explores the state graph of one program to closure.
 // binExec performs a run op through the built spok binary (`spok [--force|-f] --json tasks...`).
 func binExec(sb *proj.Sandbox, p hprog, text string, d hdisk, op hop, n int) (hexec, bool) {
-	if os.Getenv("VERIF_SPOK") == "" {
+	if os.Getenv("VERIF_SPOK") == "" || op.Fault != "" {
 		return hexec{}, false
 	}
 	materialise(sb, p, d)
@@ -941,8 +991,14 @@ func histReplay(path string) int {
 			setDagOrder(func(n int) []int { return c.Perm(n) })
 			materialise(sb, p, st.D)
 			sb.SetFailing(s.Op.Fail, p.taskNames())
+			if s.Op.Fault == "ro-cache" {
+				os.Chmod(filepath.Join(sb.Dir, ".spok", "cache.json"), 0o444)
+			}
 			o := sb.Run(text, s.Op.Force, s.Op.Req...)
 			setDagOrder(nil)
+			if s.Op.Fault == "ro-cache" {
+				os.Chmod(filepath.Join(sb.Dir, ".spok", "cache.json"), 0o644)
+			}
 			ex = hexec{Disk: readDisk(sb, p, st.D), Out: o, Choice: c.Taken}
 		}
 		out, nd := ex.Out, ex.Disk
